@@ -274,9 +274,9 @@ func c17Copy(c *Ctx, rel string) {
 			s := b.Of(e.Results[0], e.Instr).String() + "|" + b.Of(e.Results[1], e.Instr).String() + "|" + b.Of(e.Results[2], e.Instr).String()
 			switch {
 			case s == ana.Expand(cp("p4", "p5", "p6")) || s == "p4|p5|p6":
-				got2 = mustPass(f, e.Instr.Block(), z1z)
+				got2 = exitMustPass(f, e, z1z)
 			case s == ana.Expand(cp("p1", "p2", "p3")) || s == "p1|p2|p3":
-				got1 = mustPass(f, e.Instr.Block(), z2z)
+				got1 = exitMustPass(f, e, z2z)
 			}
 			t0 := b.Of(e.Results[0], e.Instr)
 			if bd, ok := ana.Match("ext#0(call<"+mname("doubleJacobian")+">(p0, $x, $y, $z))", t0); ok {
@@ -312,7 +312,7 @@ func c17Copy(c *Ctx, rel string) {
 						yEdges = append(yEdges, ce.Edge)
 					}
 				}
-				gotD = len(xEdges) > 0 && len(yEdges) > 0 && mustPass(f, e.Instr.Block(), xEdges) && mustPass(f, e.Instr.Block(), yEdges)
+				gotD = len(xEdges) > 0 && len(yEdges) > 0 && exitMustPass(f, e, xEdges) && exitMustPass(f, e, yEdges)
 				r.Check(gotD, K("C17.exceptional-add.doubling"), c.ipos(e.Instr), "doubling is returned only when the x-difference (u2−u1) AND the y-difference (s2−s1) are both zero (x tests %d, y tests %d); with the x test alone P+(−P) would be doubled", len(xEdges), len(yEdges))
 			}
 		}
@@ -331,7 +331,7 @@ func c17Copy(c *Ctx, rel string) {
 				continue
 			}
 			if b.Of(e.Results[0], e.Instr).String() == "alloc<math/big.Int>" && b.Of(e.Results[1], e.Instr).String() == "alloc<math/big.Int>" && e.Results[0] != e.Results[1] {
-				ok = mustPass(f, e.Instr.Block(), zz)
+				ok = exitMustPass(f, e, zz)
 			}
 		}
 		r.Check(ok, K("C17.exceptional-add.affine-identity"), c.P.Pos(f.Pos()), "Jacobian→affine returns two fresh zero values under z.Sign()==0 (identity as (0,0))")
